@@ -181,13 +181,16 @@ Qed.
 (* ---------------------------------------------------------------- _traverse_circuit *)
 Definition start_queue (c : circuit) (starts : option (list label)) (inverse : bool) : list label :=
   match starts with Some s => s | None => if inverse then inputs c else outputs c end.
+(* the fuel of the model's traversal, as a function of the circuit *)
+Definition traverse_fuel_of (starts : option (list label)) (inverse : bool) (c : circuit) : nat :=
+  traverse_fuel c (start_queue c starts inverse).
 
 Lemma gen_traverse_circuit_eq c mode starts inverse tsu abort :
   (tsu = true -> NoDup (dkeys (gates c))) ->
-  gen__traverse_circuit (traverse_fuel c (start_queue c starts inverse)) (S (size c)) c mode starts inverse tsu abort
+  gen__traverse_circuit (traverse_fuel c (start_queue c starts inverse)) size_fuel c mode starts inverse tsu abort
   = traverse mode inverse c starts tsu abort.
 Proof.
-  intros Hnd. unfold gen__traverse_circuit, traverse. unfold gen_size.
+  intros Hnd. unfold gen__traverse_circuit, traverse, size_fuel. unfold gen_size.
   destruct (gates c) as [|kg gs] eqn:Eg; [reflexivity|]. rewrite <- Eg in Hnd |- *.
   replace (Nat.eqb (length (gates c)) 0) with false by (rewrite Eg; reflexivity).
   clear Eg kg gs.
@@ -218,13 +221,13 @@ Qed.
 
 Lemma gen_dfs_eq c starts inverse tsu abort :
   (tsu = true -> NoDup (dkeys (gates c))) ->
-  gen_dfs (traverse_fuel c (start_queue c starts inverse)) (S (size c)) c starts inverse tsu abort
+  gen_dfs (traverse_fuel_of starts inverse) size_fuel c starts inverse tsu abort
   = traverse DFS inverse c starts tsu abort.
 Proof. apply gen_traverse_circuit_eq. Qed.
 
 Lemma gen_bfs_eq c starts inverse tsu abort :
   (tsu = true -> NoDup (dkeys (gates c))) ->
-  gen_bfs (traverse_fuel c (start_queue c starts inverse)) (S (size c)) c starts inverse tsu abort
+  gen_bfs (traverse_fuel_of starts inverse) size_fuel c starts inverse tsu abort
   = traverse BFS inverse c starts tsu abort.
 Proof. apply gen_traverse_circuit_eq. Qed.
 
@@ -256,7 +259,7 @@ Proof.
 Qed.
 
 Lemma gen_check_circuit_has_no_cycles_eq c starts :
-  gen_check_circuit_has_no_cycles (traverse_fuel c (start_queue c starts false)) (S (size c)) c starts
+  gen_check_circuit_has_no_cycles (traverse_fuel_of starts false) size_fuel c starts
   = check_circuit_has_no_cycles_from c starts.
 Proof.
   unfold gen_check_circuit_has_no_cycles, check_circuit_has_no_cycles_from.
